@@ -18,8 +18,10 @@ import MdkVerif.Model.Store
   of that id the client already holds.
 
   The order of writes of `process_welcome` is the code's:
-      validate → dedup by wrapper id → preview (failure records) → save_group(Pending) →
-      replace_group_relays → [rumor.id missing ⇒ Err HERE] → save_processed_welcome → save_welcome.
+      validate → [rumor.id missing ⇒ Err] → dedup by wrapper id → dedup by rumor id (records the new
+      wrapper, returns the stored welcome) → preview (failure records) → save_group(Pending) →
+      replace_group_relays → save_processed_welcome → save_welcome
+  (as of /repo 4010ddc + 0dcc511; `accept` / `decline` refuse a welcome that is already Accepted).
   Also modelled (group traffic, only as far as the invitation property needs it): processing a commit of
   the group (`applyCommit`) and receiving an application message (`probe`).
 -/
@@ -82,42 +84,54 @@ def welcomeOf (m : Invite) (rid wrapper : Nat) : Store.Welcome :=
 def failedPw (wrapper : Nat) (m : Invite) : PW :=
   { wrapper := wrapper, welcomeId := m.rid, processedAt := 0, state := 1, reason := some 0 }
 
+def okPw (wrapper rid : Nat) : PW :=
+  { wrapper := wrapper, welcomeId := some rid, processedAt := 0, state := 0, reason := none }
+
+/-- the tail of `process_welcome` for a rumor (id `rid`) that is neither known by its wrapper id nor by
+    its rumor id: preview, then the four writes -/
+def processFresh (c : Client) (wrapper : Nat) (m : Invite) (rid : Nat) : Client × Res :=
+  if m.shape = 2 then                                                  -- preview_welcome fails
+    ({ c with store := savePw c.store (failedPw wrapper m) }, .err .welcome)
+  else
+    match saveGroup c.store (pendingGroup m) with                      -- save_group(Pending)
+    | none => (c, .err .group)
+    | some s1 =>
+      match replaceRelays s1 m.gid m.relays with                       -- replace_group_relays
+      | none => ({ c with store := s1 }, .err .group)
+      | some s2 =>
+        match saveWelcome (savePw s2 (okPw wrapper rid)) (welcomeOf m rid wrapper) with   -- save_processed_welcome, save_welcome
+        | none => ({ c with store := savePw s2 (okPw wrapper rid) }, .err .welcome)
+        | some s4 => ({ c with store := s4 }, .welcome (welcomeOf m rid wrapper))
+
 /-- `MDK::process_welcome(wrapper_event_id, rumor)` -/
 def process (c : Client) (wrapper : Nat) (m : Invite) : Client × Res :=
   if m.shape = 1 then (c, .err .invalidWelcome)                      -- validate_welcome_event
   else
-    match findPw c.store wrapper with                                  -- dedup on the wrapper id
-    | some p =>
-      if p.state = 1 then (c, .err .previouslyFailed)
-      else match p.welcomeId with
-        | some id => match findWelcome c.store id with
-          | some w => (c, .welcome w)
+    match m.rid with                                                   -- rumor_event.id.ok_or(..)? — before any write
+    | none => (c, .err .missingRumorId)
+    | some rid =>
+      match findPw c.store wrapper with                                -- dedup on the wrapper id
+      | some p =>
+        if p.state = 1 then (c, .err .previouslyFailed)
+        else match p.welcomeId with
+          | some id => match findWelcome c.store id with
+            | some w => (c, .welcome w)
+            | none => (c, .err .welcome)
           | none => (c, .err .welcome)
-        | none => (c, .err .welcome)
-    | none =>
-      if m.shape = 2 then                                              -- preview_welcome fails
-        ({ c with store := savePw c.store (failedPw wrapper m) }, .err .welcome)
-      else
-        match saveGroup c.store (pendingGroup m) with                  -- save_group(Pending)
-        | none => (c, .err .group)
-        | some s1 =>
-          match replaceRelays s1 m.gid m.relays with                   -- replace_group_relays
-          | none => ({ c with store := s1 }, .err .group)
-          | some s2 =>
-            match m.rid with                                           -- rumor_event.id.ok_or(..)?
-            | none => ({ c with store := s2 }, .err .missingRumorId)
-            | some rid =>
-              let s3 := savePw s2 { wrapper := wrapper, welcomeId := some rid, processedAt := 0, state := 0, reason := none }
-              match saveWelcome s3 (welcomeOf m rid wrapper) with      -- save_welcome
-              | none => ({ c with store := s3 }, .err .welcome)
-              | some s4 => ({ c with store := s4 }, .welcome (welcomeOf m rid wrapper))
+      | none =>
+        match findWelcome c.store rid with                             -- dedup on the rumor id
+        | some sw =>
+          -- the same rumor under another wrapper id: remember the wrapper, return the stored welcome
+          ({ c with store := savePw c.store (okPw wrapper rid) }, .welcome sw)
+        | none => processFresh c wrapper m rid
 
 /-- `MDK::accept_welcome(stored welcome)`; `m` is what the stored welcome's event decodes to -/
 def accept (c : Client) (m : Invite) : Client × Res :=
   match m.rid.bind (findWelcome c.store) with
   | none => (c, .err .noStored)
   | some sw =>
-    if m.shape ≠ 0 then ({ c with store := savePw c.store (failedPw sw.wrapper m) }, .err .welcome)
+    if sw.state = 1 then (c, .err .welcome)                            -- already accepted: refused
+    else if m.shape ≠ 0 then ({ c with store := savePw c.store (failedPw sw.wrapper m) }, .err .welcome)
     else
       let mls := ainsert m.gid { tok := m.tok, epoch := m.epoch, members := m.members } c.mls   -- into_group, replace_old_group
       match saveWelcome c.store { sw with state := 1 } with
@@ -138,7 +152,8 @@ def decline (c : Client) (m : Invite) : Client × Res :=
   match m.rid.bind (findWelcome c.store) with
   | none => (c, .err .noStored)
   | some sw =>
-    if m.shape ≠ 0 then ({ c with store := savePw c.store (failedPw sw.wrapper m) }, .err .welcome)
+    if sw.state = 1 then (c, .err .welcome)                            -- already accepted: refused
+    else if m.shape ≠ 0 then ({ c with store := savePw c.store (failedPw sw.wrapper m) }, .err .welcome)
     else
       match saveWelcome c.store { sw with state := 2 } with
       | none => (c, .err .welcome)
@@ -152,10 +167,11 @@ def decline (c : Client) (m : Invite) : Client × Res :=
 
 /-- the order of steps the three functions above transcribe (codes as in `tools/gen_model.py`:
     0 validate, 1 dedup lookup, 2 preview, 3 save_group, 4 replace_group_relays, 5 rumor-id check,
-    6 save_processed_welcome, 7 save_welcome, 8 into_group, 9 get_group) -/
-def processOrder : List Nat := [0, 1, 2, 3, 4, 5, 6, 7]
-def acceptOrder : List Nat := [2, 8, 7, 9, 3, 4]
-def declineOrder : List Nat := [2, 7, 9, 3]
+    6 save_processed_welcome, 7 save_welcome, 8 into_group, 9 get_group, 10 find_welcome_by_event_id,
+    11 get_welcome) -/
+def processOrder : List Nat := [0, 5, 1, 10, 10, 6, 2, 3, 4, 6, 7]
+def acceptOrder : List Nat := [11, 2, 8, 7, 9, 3, 4]
+def declineOrder : List Nat := [11, 2, 7, 9, 3]
 
 inductive Op where
   | process (wrapper : Nat) (m : Invite)
